@@ -22,7 +22,8 @@ def lean_witnesses():
     vlib.lake_build(["IsalVerif.Gen.SubmitPrefix", "IsalVerif.Lemmas.SubmitCProofs"])
     r = vlib.run(["lake", "env", "lean", path], cwd=vlib.LEAN)
     out = []
-    for m in re.finditer(r'\("([^"]+)", "([^"]+)", (none|some \(([\d, ]+)\)), (none|some \(([\d, ]+)\)), (true|false)\)', r.stdout):
+    flat = re.sub(r"\s+", " ", r.stdout)
+    for m in re.finditer(r'\("([^"]+)", "([^"]+)", (none|some \(([\d, ]+)\)), (none|some \(([\d, ]+)\)), (true|false)\)', flat):
         f, fn, w1, w2, same = m.group(1), m.group(2), m.group(4), m.group(6), m.group(7) == "true"
         if not same:
             out.append((f, fn, tuple(int(x) for x in w1.split(",")) if w1 else None, tuple(int(x) for x in w2.split(",")) if w2 else None))
